@@ -340,6 +340,13 @@ fn c05_scenarios(thorough: bool) -> Vec<Scenario> {
         s.process_cap = cap;
         v.push(s);
     }
+    // the same with byte delivery (the feeder's byte path has a queue hand-over of its own)
+    let caps_bytes: &[(usize, usize, usize)] = if thorough { &[(1, 3, 1), (2, 2, 1), (1, 4, 2)] } else { &[(1, 3, 1)] };
+    for &(w, f, cap) in caps_bytes {
+        let mut s = mk(&format!("cap{cap}_cfg_w{w}_f{f}_bytes"), w, None, w, data(f), 6, true, pb);
+        s.process_cap = cap;
+        v.push(s);
+    }
     if thorough {
         // no preemption bound at all: every interleaving (DPOR) of feeder, one worker and the hashing thread
         v.push(mk("unbounded_cfg_w1_f0", 1, None, 1, data(0), 0, false, 1000));
